@@ -574,6 +574,15 @@ func Produce(t *Target, in, dep string) map[string]tree.Tree {
 		if strings.HasPrefix(base, "dup") {
 			nf = 0
 		}
+		if strings.HasPrefix(base, "sub") {
+			// "sub*": nothing but sub-directories at the top level (no regular file, no link);
+			// the files sit one and two levels down
+			nf = 0
+			for i := 0; i < int(h[2])%3+2; i++ {
+				tr.AddFile(fmt.Sprintf("bin/f%d.dat", i), []byte(fmt.Sprintf("%sidx=b%d\n", prov, i)), i == 0)
+				tr.AddFile(fmt.Sprintf("lib/deep/g%d.dat", i), []byte(fmt.Sprintf("%sidx=l%d\n%s", prov, i, strings.Repeat(h, 40))), false)
+			}
+		}
 		for i := 0; i < nf; i++ {
 			sub := ""
 			if strings.HasPrefix(base, "flt") {
@@ -600,10 +609,10 @@ func Produce(t *Target, in, dep string) map[string]tree.Tree {
 		if int(h[20])%2 == 0 && !strings.HasPrefix(base, "flt") {
 			tr.AddDir("empty")
 		}
-		if int(h[21])%2 == 0 {
+		if int(h[21])%2 == 0 && !strings.HasPrefix(base, "sub") {
 			tr.AddLink("lnk", "f0.dat")
 		}
-		if int(h[22])%3 == 0 {
+		if int(h[22])%3 == 0 && !strings.HasPrefix(base, "sub") {
 			tr.AddLink("dangling", "nowhere/x")
 		}
 		// parents
